@@ -509,12 +509,20 @@ RULE = ('fields: bls12_381 Fr, bn384_small_two_adicity Fq/Fr (mixed radix), secp
         'toy fields p = 97, 193, 257, 7681 and mixed-radix toys (q = 3, 5, 7); every domain size of the toy fields up to '
         '2^9 (quick) / 2^11 (thorough), every mixed size 2^s q^t; input lengths 0, 1, n/4, n/4+1, n/2, n-1, n, random; offsets none, '
         '1, generator, domain element, random; points first/last/random domain element, 0, 1, random; '
-        'non-trivial = a constructor/element case or some data element non-zero; distinct = distinct case lines')
+        'reindex_by_subdomain: every (G, S) pair with |S| dividing |G| of every toy field and kind, every index < |G| (shipped fields: '
+        '|G| <= 48 all indices, larger ones boundary indices); filter polynomial: every such pair up to |G| = 64 (256 thorough), S a subgroup '
+        'or a coset inside G, G a subgroup or rotated, tau in S / in G / outside; pointwise product, sampling outside, distribute_powers, '
+        'bitreverse_permutation_in_place; '
+        'non-trivial = a constructor/element/reindex case or some data element non-zero; distinct = distinct case lines')
 TRUSTED = ['root-of-unity table of io_helper/oi_helper and its compaction are modelled by their values (powers of root^num_chunks)',
            'in-place swap loops (derange, degree-aware placement, mixed-radix cycle following) are modelled by the index maps they realise',
            'field arithmetic of the compiled crates is taken from C01 (here: ZpOps p)']
 ASSUMPTIONS = ['default features (serial code paths; the parallel ones are C14)', 'num_coeffs < 2^63 (no usize overflow in next_power_of_two)',
-               'input no longer than the domain']
+               'input no longer than the domain',
+               'reindex_by_subdomain: |other| divides |self|, index < |self|',
+               'filter polynomial: the subdomain is a coset contained in self and self.offset^|self| = 1 (DEFECT-2); '
+               'evaluate_filter_polynomial with subdomain.offset^|subdomain| != 1 only at points of self (DEFECT-1)',
+               'sample_element_outside_domain: only the predicate "the result is outside the domain" is compared (the rng stream is not modelled)']
 HYPOTHESES = ['is_field F: field_theory of the dictionary operations with Leibniz equality (abstract field; explicit premise of every theorem, not a section axiom)',
               'eqb_correct F: feqb decides equality',
               'prim_root F k omega: omega^(2^(k-1)) = -1, i.e. omega is a primitive 2^k-th root of unity',
@@ -524,6 +532,10 @@ HYPOTHESES = ['is_field F: field_theory of the dictionary operations with Leibni
               'configuration whose LARGE_SUBGROUP_ROOT_OF_UNITY has exact order 2^S q^qa: C07_get_root_large_pow_n/_pow_half, configuration fact C16)',
               'C07_dft_inverse, C07_mixed_ifft_fft_id, Lagrange theorems: the generator has exact order n (gen^n = 1, gen^i <> 1 for 0 < i < n), '
               'offset <> 0, n*1 <> 0 in the field, stored inverses are inverses, d_size_fe = n*1, d_offset_pow_size = offset^n (what the constructors store)',
+              'C07_reindex_by_subdomain_spec: |other| = n >= 1, |self| = n m, m >= 1; C07_reindex_element: gen_S = gen_G^m and equal offsets '
+              '(what get_root_of_unity gives for the two sizes; tied by the correspondence lists of the reindex op)',
+              'C07_divide_with_q_and_r_spec: the divisor is a non-empty coefficient list with non-zero leading coefficient; '
+              'C07_filter_polynomial_spec: sizes >= 1, |self| * 1 <> 0 in the field',
               'C07_get_root_large_*: L^(2^S q^qa) = 1, L^(2^(S-1) q^qa) = -1 for the configured large-subgroup root (configuration fact, C16)']
 
 
